@@ -450,7 +450,7 @@ func (s *Script) OnProbe(n *simnet.Net, sink *simnet.Sink, p *refcodec.Packet, r
 			delay = 0 // the reply is on the capture handle when the send call returns (loopback, same host)
 		}
 		if b, err := simnet.Build(form, p, from, ctx); err == nil {
-			genuine := hs.Perturb == nil && hs.Truncate == 0 && len(hs.Mutate) == 0
+			genuine := hs.Perturb == nil && hs.Truncate == 0 && len(hs.Mutate) == 0 && !strings.HasPrefix(form, "v6mapped:")
 			for _, rw := range hs.Rewrite {
 				b, err = rw.Apply(b)
 				if err != nil {
